@@ -214,6 +214,65 @@ def build_code(cls, size):
     return F.get_class(cls)(*size)
 
 
+def multi_code_sizes(cls):
+    """a size, its transposes/rotations and one other size, all inside the supported family, n <= 400"""
+    dim = 2 if cls in F.CLASSES_2D else 3
+    base = [3, 4] if dim == 2 else [2, 3, 4]
+    cands = [list(q) for q in sorted(set(itertools.permutations(base)))] + [[3] * dim, [2] * dim, [4] * dim]
+    out = []
+    for sz in cands:
+        if F.in_family(cls, sz) and sz not in out:
+            n = F.n_qubits(cls, sz)
+            if n is not None and n <= 400:
+                out.append(sz)
+    return out[:4]
+
+
+def eval_codes(case):
+    from panqec.error_models import PauliErrorModel
+    res = {'evals': 0, 'nontrivial': 0, 'violations': [], 'samples': [], 'outcomes': [], 'skipped': 0,
+           'extra': {'codes_sequences': 0, 'codes_tables': 0}}
+    cls = case['cls']
+    p = P_LIST[case['pi']]
+    r = SESSION_DIRS[0]
+    outcomes = set()
+    sizes = case['sizes']
+    orders = list(itertools.permutations(range(len(sizes)), 2)) + [tuple(range(len(sizes))),
+                                                                     tuple(reversed(range(len(sizes))))]
+    for d in deformation_configs(cls):
+        if d is None:
+            continue
+        for order in orders:
+            res['extra']['codes_sequences'] += 1
+            em = PauliErrorModel(r[0], r[1], r[2], deformation_name=d[0], deformation_kwargs=dict(d[1]))
+            for pos, si in enumerate(order):
+                code = build_code(cls, sizes[si])
+                rows, _ = reference_rows(code, p, r, d)
+                ref = np.array(rows)
+                res['evals'] += 1
+                res['extra']['codes_tables'] += 1
+                err = None
+                try:
+                    got = np.array([np.asarray(v, dtype=float) for v in em.probability_distribution(code, p)]).T
+                except Exception as exc:
+                    err, got = exc, None
+                bad = err is not None or got.shape != ref.shape or np.abs(got - ref).max() > 1e-12
+                res['nontrivial'] += int(pos > 0 and len(set(map(tuple, rows))) > 1)
+                outcomes.add('%s|%s|%s|%d' % (cls, d[0], 'x'.join(map(str, sizes[si])), len(set(map(tuple, rows)))))
+                if bad and len(res['violations']) < 4:
+                    k = base_key(dict(case, deformation=d, size=sizes[si], n=code.n))
+                    k.update({'kind': 'table-of-another-code', 'part': 'codes', 'position': pos,
+                              'used_before_on': [sizes[j] for j in order[:pos]]})
+                    q = None if got is None or got.shape != ref.shape else int(np.abs(got - ref).max(axis=1).argmax())
+                    res['violations'].append({'key': k, 'detail': {
+                        'raised': None if err is None else repr(err)[:200], 'qubit': q,
+                        'got': None if q is None else got[q].tolist(),
+                        'expected': None if q is None else ref[q].tolist()}})
+    res['outcomes'] = sorted(outcomes)[:50]
+    res['samples'] = [{'part': 'codes', 'cls': cls, 'sizes': sizes, 'sequences': res['extra']['codes_sequences']}]
+    return res
+
+
 def deformation_configs(cls):
     if cls == SYNTH:
         return [None, ['CYC3', {}]]
@@ -270,7 +329,15 @@ def cases(tier, seed):
         for pi in spis:
             sess.append({'part': 'session', 'cls': cls, 'size': size, 'pi': pi, 'n': build_code(cls, size).n,
                          'grid_log2': g, 'deformation': None})
-    return sess + xc + tiny + out
+    # one noise-model OBJECT used on several codes of one class (sizes with equal qubit count but another shape
+    # among them): the table it hands out must be the table of the code it is asked about
+    multi = []
+    for cls in [c for c in F.CLASSES if F.deformations(c)]:
+        szs = multi_code_sizes(cls)
+        if len(szs) >= 2:
+            multi.append({'part': 'codes', 'cls': cls, 'sizes': szs, 'size': szs[0], 'pi': 3, 'deformation': None,
+                          'n': 0})
+    return sess + multi + xc + tiny + out
 
 
 # ---------------------------------------------------------------- reference
@@ -1212,6 +1279,8 @@ def eval_case(case):
         return eval_sample(case)
     if case['part'] == 'session':
         return eval_session(case)
+    if case['part'] == 'codes':
+        return eval_codes(case)
     if case['part'] == 'tiny':
         return eval_tiny(case)
     if case['part'] == 'xcube':
